@@ -61,20 +61,20 @@ type DirChecker struct {
 	Log     *FeedLog
 	Created int // call in which the stream object was created
 
-	pos        int
-	n          int // deliveries seen
-	Started    bool
-	Unknown    bool
-	kept       []byte
-	keptSet    bool
-	EndCall    int // call in which the stream object completed (-1: not yet)
-	Bad        bool
-	SkipBytes  int
-	Delivered  int
-	SawSkip    bool
-	SawKept    bool
-	LimitSkips int
-	SawEnd     bool
+	pos          int
+	n            int // deliveries seen
+	Started      bool
+	Unknown      bool
+	kept         []byte
+	keptSet      bool
+	EndCall      int // call in which the stream object completed (-1: not yet)
+	Bad          bool
+	SkipBytes    int
+	Delivered    int
+	SawSkip      bool
+	SawKept      bool
+	LimitSkips   int
+	SawEnd       bool
 	EndDelivered int // call of the first delivery carrying the End flag
 }
 
